@@ -135,13 +135,13 @@ func runProviderInBubble(spec ProvSpec, stats *Stats, res *RunResult) {
 	}
 	fleet := s.Chance(0.5)
 	if pc != nil {
-		fleet = pc.Kind == "fleet"
+		fleet = pc.Kind == "fleet" || pc.Kind == "replace"
 		if pc.Kind == "fleet" {
 			size, min, max = 2, 0, 2+pc.Size*(6+pc.Repeat)+s.Intn(3)
 		} else {
 			size, min = pc.Desired, pc.Min
 			max = size + 5
-			fleet = pc.Lifecycle == "fleet"
+			fleet = pc.Lifecycle == "fleet" || pc.Kind == "replace"
 		}
 	}
 	if fleet {
@@ -672,6 +672,8 @@ func (p *provRun) judgeDelete(nodes []*v1.Node, k *KnownASG, err error) {
 		if ti >= len(terms) {
 			if err == nil {
 				p.viol("C19", "c19-instance", "missing", "", fmt.Sprintf("no terminate call for member %s and no error", n.Name))
+			} else if ne, ok := err.(*cloudprovider.NodeNotInNodeGroup); ok && ne.NodeName == n.Name {
+				p.viol("C19", "c19-foreign", "member-refused", "", fmt.Sprintf("node %s (%q) IS a member of the known ASG, yet the request stopped with the not-in-group error naming it", n.Name, n.Spec.ProviderID))
 			}
 			return
 		}
@@ -871,6 +873,44 @@ func (p *provRun) directed(pc *ProvCase) {
 			_ = batches
 			p.opIdx++
 			p.opIncrease(int64(pc.Size))
+		}
+	case "replace":
+		// a member leaves, a newcomer joins (same group size), then the newcomer is removed / the leaver is named again
+		k := p.known()
+		var members []string
+		for id := range k.Instances {
+			members = append(members, id)
+		}
+		sort.Strings(members)
+		if len(members) < 2 {
+			return
+		}
+		leaver := p.mkNode(k.Instances[members[0]], "ip-"+members[0])
+		p.opDelete([]*v1.Node{leaver})
+		time.Sleep(5 * time.Minute) // the terminated instance leaves the Describe answer
+		p.opIdx = 2
+		p.opRefresh()
+		p.opIdx = 3
+		p.opIncrease(1) // fleet mode: one new instance is attached
+		p.opIdx = 4
+		p.opRefresh()
+		k2 := p.known()
+		var newcomer *v1.Node
+		for id, pid := range k2.Instances {
+			if _, old := k.Instances[id]; !old {
+				newcomer = p.mkNode(pid, "ip-"+id)
+			}
+		}
+		if newcomer == nil || len(p.res.Violations) > 0 {
+			return
+		}
+		p.st.Probe("membership changed at constant group size between two removals")
+		p.opIdx = 5
+		if pc.K == 0 {
+			p.opDelete([]*v1.Node{newcomer})
+		} else {
+			other := p.mkNode(k2.Instances[members[1]], "ip-"+members[1])
+			p.opDelete([]*v1.Node{other, leaver}) // the former member must stop the request after `other`
 		}
 	case "delete":
 		k := p.known()
